@@ -213,6 +213,11 @@ def malformedB (toks : List (Nat × Str)) : Bool :=
 /-- The numbered hint tokens of a text. -/
 def hintToks (c : Str) : List (Nat × Str) := numberedTokens 1 (splitNL c)
 
+/-- The text contains none of the four separators 0x1c–0x1f (FS, GS, RS, US): the only characters
+of the model alphabet that are white space for `str.strip()` / `str.split()` and not for the regex
+engine's `\\s`. -/
+def noFS (s : Str) : Bool := s.all fun c => !(28 ≤ c.toNat && c.toNat ≤ 31)
+
 /-! ### Hygiene: what `decorate` assumes of the program and of the labels -/
 
 def noM13 (l : Str) : Bool := !hasInfix m13 l
@@ -234,16 +239,12 @@ def okCode (c : CodeLine) : Bool :=
   noNL c.code && noM13 c.code && noTrailWs c.code && (c.hints.isEmpty || !c.code.isEmpty) &&
     c.hints.all fun h => cleanLabel h.label
 
-def firstOk (c : CodeLine) : Bool :=
-  match c.code with
-  | [] => false
-  | x :: _ => !isSpacePy x
+def firstOk (c : CodeLine) : Bool := !c.code.isEmpty
 
 def lastOk (c : CodeLine) : Bool := !c.code.isEmpty
 
-/-- The hypothesis of the round trip. The last two conjuncts (first line not blank nor indented,
-last line not blank) are the ones finding 7 forces: hints are numbered before `remove_hints`
-strips the blank ends of the text. -/
+/-- Hygienic lines whose first and last code lines are not blank (what `centrifugate_hints` leaves
+once the blank lines are trimmed, see `normalised`). -/
 def hygienic (d : Decorated) : Bool :=
   (codeLines d).all okCode && (wholeLabels d).all cleanLabel &&
     match codeLines d with
@@ -300,8 +301,26 @@ def isBlankLine : Line → Bool
 def core (d : Decorated) : Decorated :=
   ((d.dropWhile isBlankLine).reverse.dropWhile isBlankLine).reverse
 
-/-- What `get_program` numbers the hints on, for a decorated program with free marker spellings. -/
-def normalised (d : List (Line × MarkerStyle)) : Decorated := core (d.map fun p => gap0 p.1)
+def isBlankCode (c : CodeLine) : Bool := c.code.isEmpty && c.hints.isEmpty
+
+/-- Without the blank code lines that come before the first code line that is not blank (hints
+alone on a line are kept where they are). -/
+def dropLeadingBlank : Decorated → Decorated
+  | [] => []
+  | .isolated n L :: t => .isolated n L :: dropLeadingBlank t
+  | .code c :: t => if isBlankCode c then dropLeadingBlank t else .code c :: t
+
+/-- Without the blank code lines before the first / after the last code line that is not blank:
+the blank lines `centrifugate_hints` finds at the ends once the isolated hints are set aside. -/
+def core2 (d : Decorated) : Decorated := (dropLeadingBlank (dropLeadingBlank d).reverse).reverse
+
+/-- The decorated program after the preparation steps of `get_program`: markers normalised, blank
+lines at the ends of the text trimmed. -/
+def trimmed (d : List (Line × MarkerStyle)) : Decorated := core (d.map fun p => gap0 p.1)
+
+/-- What `get_program` numbers the hints on: the prepared program (`trimmed`) without the blank code
+lines left at its ends once the hints alone on a line are set aside (`core2`). -/
+def normalised (d : List (Line × MarkerStyle)) : Decorated := core2 (trimmed d)
 
 /-- No tolerated spelling of the marker (`(?i)#\s*paroxython\s*:`) occurs in the text. -/
 def scanAccepts : NState → Str → Bool
